@@ -5,10 +5,13 @@
 (*     evaluated both ways round on the real objects (None recorded as -1, booleans as 0/1)        *)
 (*  kind "asm":  [frs, cut, pairs, cli, clipairs, exc] - Assembly.find_overlapping_fragments on    *)
 (*     the real assembly, and (cli = 1) the pairs listed on stderr by asm-format --qc-overlaps     *)
+(*  kind "focli": [scaffolds, baits, reports, exc, exit, lines] - the find-overlaps command line   *)
+(*     tool on an assembly file and one or two '<name>:<start>-<end>' specifications; reports are  *)
+(*     its parsed lines [pos, scaffold, name, s, e, bname, bs, be, ovr]                            *)
 (***************************************************************************************************)
 EXTENDS Intervals, Json, IOUtils, TLCExt
 Traces == JsonDeserialize(IOEnv.TRACE_FILE)
-ASSUME TLCSet(1, 0) /\ TLCSet(2, 0) /\ TLCSet(3, 0)
+ASSUME TLCSet(1, 0) /\ TLCSet(2, 0) /\ TLCSet(3, 0) /\ TLCSet(4, 0)
 VARIABLE k
 B(x) == IF x THEN 1 ELSE 0
 Say(T, clause, detail) == PrintT(<<"V", T.tid, clause, detail>>)
@@ -32,9 +35,27 @@ JudgeAsm(T) ==
   /\ (T.cli = 0 \/ (AsSet(T.clipairs) = want /\ Len(T.clipairs) = Cardinality(want)) \/ Say(T, "C19.cli_reports_pairs", cls))
   /\ TLCSet(3, TLCGet(3) + B(want # {}))
 
-Judge(T) == TLCSet(1, TLCGet(1) + 1) /\ (IF T.kind = "pair" THEN JudgePair(T) ELSE JudgeAsm(T))
+\* find-overlaps: one report per (scaffold, fragment row, specification) that share a base, scaffolds in file order, rows in scaffold order,
+\* specifications in command-line order; the position label is "only row" / "first row" / "last row" / "row <n>" (n counts gap rows too);
+\* the length is the number of shared bases.  Not part of C19's QC: differences are model drift.
+PosLabel(rows, q) == IF Len(rows) = 1 THEN "only row" ELSE IF q = 1 THEN "first row" ELSE IF q = Len(rows) THEN "last row" ELSE "row " \o ToString(q)
+FoExpected(T) ==
+  LET perRow(sc, q) == LET r == sc.rows[q] IN
+        IF r.k # "F" THEN <<>>
+        ELSE LET hits == SelectSeq([b \in 1..Len(T.baits) |-> b], LAMBDA b : Shares(T.baits[b], r)) IN
+             [h \in 1..Len(hits) |-> [pos |-> PosLabel(sc.rows, q), scaffold |-> sc.name, name |-> r.name, s |-> r.s, e |-> r.e,
+                                        bname |-> T.baits[hits[h]].name, bs |-> T.baits[hits[h]].s, be |-> T.baits[hits[h]].e, ovr |-> OvLen(T.baits[hits[h]], r)]]
+      perSc(sc) == LET Acc[q \in 0..Len(sc.rows)] == IF q = 0 THEN <<>> ELSE Acc[q - 1] \o perRow(sc, q) IN Acc[Len(sc.rows)]
+      All[n \in 0..Len(T.scaffolds)] == IF n = 0 THEN <<>> ELSE All[n - 1] \o perSc(T.scaffolds[n])
+  IN All[Len(T.scaffolds)]
+JudgeFo(T) ==
+  /\ ((T.exc = "" /\ T.exit = 0) \/ PrintT(<<"M", T.tid, "find_overlaps_cli", "fails/" \o T.exc>>))
+  /\ (T.exc # "" \/ T.exit # 0 \/ (T.reports = FoExpected(T) /\ T.lines = Len(T.reports)) \/ PrintT(<<"M", T.tid, "find_overlaps_cli", T.fmt>>))
+  /\ TLCSet(4, TLCGet(4) + Len(T.reports))
+Judge(T) == TLCSet(1, TLCGet(1) + 1) /\ (IF T.kind = "pair" THEN JudgePair(T) ELSE IF T.kind = "focli" THEN JudgeFo(T) ELSE JudgeAsm(T))
 TInit == k = 0 /\ frs = <<>> /\ cut = 0 /\ i = 0 /\ j = 0 /\ found = <<>> /\ pc = "x"
 TNext == k < Len(Traces) /\ k' = k + 1 /\ Judge(Traces[k + 1]) = TRUE /\ UNCHANGED vars
 TraceSpec == TInit /\ [][TNext]_<<k, vars>>
 Post == PrintT(<<"JUDGED", TLCGet(1)>>) /\ PrintT(<<"N", "pairs", TLCGet(2)>>) /\ PrintT(<<"N", "asm_with_overlap", TLCGet(3)>>)
+        /\ PrintT(<<"N", "find_overlaps_reports", TLCGet(4)>>)
 ====
